@@ -95,7 +95,7 @@ def comment_parsers(prog):
                 pats.append(n["pat"])
             elif n.get("k") == "Match":
                 pats += [a["pat"] for a in n["arms"]]
-        if any((hir.pat_variant(alt) or "").endswith("tokens::TokenType::Comment") for p in pats for alt in hir.pat_alternatives(p)):
+        if any(v.endswith("tokens::TokenType::Comment") for p in pats for v in hir.pat_variants_all(p)):
             res.add(b["p"])
     return res
 
@@ -217,3 +217,35 @@ def classify_comment_call(prog, call):
         if applies:
             verdict = "leading"
     return verdict
+
+
+def in_lexer_module(c, b):
+    f = c.file_of(b["sp"])
+    return (f.endswith("/lexer.rs") or "/lexer/" in f) and "/tests" not in f
+
+
+def sub_lexers(prog):
+    """The lexers of the token classes, by role: the implementations of the lexer trait (wherever their unit structs live), and plain
+    functions of the lexer module (Span) -> IResult that build exactly one class of token.  -> {class name: body}"""
+    key = (id(prog), "sub_lexers")
+    if key in _cache:
+        return _cache[key]
+    c = prog.front
+    TT = "spl_frontend::tokens::TokenType::"
+    res = {}
+    for b in c.bodies:
+        if not in_lexer_module(c, b) or b["k"] not in ("fn", "assoc_fn"):
+            continue
+        if b["name"] == "lex" and "impl_trait" in b and "impl_self" in b:
+            res[c.tstr(b["impl_self"]).rsplit("::", 1)[-1]] = b
+    for b in c.bodies:
+        if not in_lexer_module(c, b) or b["k"] != "fn" or "impl_trait" in b or "sig_in" not in b:
+            continue
+        ins = [c.tstr(t) for t in b["sig_in"]]
+        if len(ins) != 1 or "LocatedSpan" not in ins[0] or "Token" not in c.tstr(b["sig_out"]):
+            continue
+        built = set(n["res"]["ctor_of"][len(TT):] for n in hir.nodes(b["body"], "Path") if (n["res"].get("ctor_of") or "").startswith(TT))
+        if len(built) == 1:
+            res.setdefault(built.pop(), b)
+    _cache[key] = res
+    return res
